@@ -36,7 +36,7 @@ Inductive path :=
 (* lam: the object is callable and call() hands it, as a VALUE, to a Lambda-typed parameter of a
    function registered under n (args list, kwargs dict or receiver).  Lambda.convert / Lambda._call
    treat any callable value as the lambda's body and INVOKE it with the lambda's arguments - also in
-   engines created without allow_delegates.  Known finding F20 (open); the model is faithful to it. *)
+   engines created without allow_delegates.  Known finding F22 (open); the model is faithful to it. *)
 
 Inductive fres :=
 | FDenied (e : exn)
